@@ -1,9 +1,10 @@
 // C48: module callbacks run in order and verdicts are honoured.  Whole-server harness (package e2e).
 //
-// input : [h bst [chain0] [chain2] [chain3] [chain4] [chain5] [chain6] [chain7] [chain8]]
+// input : [h bst tls [chain0] [chain1] [chain2] [chain3] [chain4] [chain5] [chain6] [chain7] [chain8]]
 //   h      number of handlers verifmod registered per callback point (one server per h, 1..5)
 //   bst    status code the fake backend replies with (body "bk")
-//   chainP verdict codes of handlers 0.. at callback point P (HandleAccept=0, BeforeLocation=2, FoundProduct=3,
+//   tls    1 = the client connects to the HTTPS listener (HandleHandshake runs), 0 = plain HTTP
+//   chainP verdict codes of handlers 0.. at callback point P (HandleAccept=0, HandleHandshake=1, BeforeLocation=2, FoundProduct=3,
 //          AfterLocation=4, Forward=5, ReadResponse=6, RequestFinish=7, Finish=8); shorter than h => rest GoOn.
 //          verdict code = ret + 10*variant; ret: 0 Finish 1 GoOn 2 Redirect 3 Response 4 Close 5.. (unknown value);
 //          variant 0..2 selects the scripted response (status 403/404/200, body "v<k>") resp. redirect (301/302/307, URL "http://r<k>.example/x")
@@ -44,14 +45,14 @@ func getEnv(h int) *env {
 		Products: []e2e.Product{{Name: "p", Hosts: []string{"example.org"}, Cluster: "c"}},
 		Clusters: []e2e.Cluster{{Name: "c", RetryMax: 0,
 			SubClusters: []e2e.SubCluster{{Name: "s1", Weight: 100, Backends: []*e2e.Backend{bk}}}}},
-		Handlers: h,
+		Handlers: h, HTTPS: true,
 	})
 	e := &env{srv, bk}
 	envs[h] = e
 	return e
 }
 
-var points = []int{bfe_module.HandleAccept, bfe_module.HandleBeforeLocation, bfe_module.HandleFoundProduct,
+var points = []int{bfe_module.HandleAccept, bfe_module.HandleHandshake, bfe_module.HandleBeforeLocation, bfe_module.HandleFoundProduct,
 	bfe_module.HandleAfterLocation, bfe_module.HandleForward, bfe_module.HandleReadResponse,
 	bfe_module.HandleRequestFinish, bfe_module.HandleFinish}
 
@@ -66,17 +67,17 @@ func verdict(code int) e2e.Verdict {
 
 func impl(in hv.Val) hv.Val {
 	l := hv.AsList(in)
-	if len(l) != 10 {
+	if len(l) != 12 {
 		return hv.Err(0)
 	}
-	h, bst := int(hv.AsInt(l[0])), int(hv.AsInt(l[1]))
-	if h < 1 || h > 5 || bst < 200 || bst > 599 {
+	h, bst, useTLS := int(hv.AsInt(l[0])), int(hv.AsInt(l[1])), int(hv.AsInt(l[2]))
+	if h < 1 || h > 5 || bst < 200 || bst > 599 || useTLS < 0 || useTLS > 1 {
 		return hv.Err(0)
 	}
 	session, reqs := e2e.Script{}, e2e.Script{}
 	for i, p := range points {
 		var vs []e2e.Verdict
-		for _, c := range hv.AsList(l[2+i]) {
+		for _, c := range hv.AsList(l[3+i]) {
 			code := int(hv.AsInt(c))
 			if code < 0 || code > 29 {
 				return hv.Err(0)
@@ -86,7 +87,7 @@ func impl(in hv.Val) hv.Val {
 		if len(vs) > h {
 			return hv.Err(0)
 		}
-		if p == bfe_module.HandleAccept || p == bfe_module.HandleFinish {
+		if p == bfe_module.HandleAccept || p == bfe_module.HandleHandshake || p == bfe_module.HandleFinish {
 			session[p] = vs
 		} else {
 			reqs[p] = vs
@@ -99,7 +100,12 @@ func impl(in hv.Val) hv.Val {
 	e.srv.Mod.SetScript(session)
 	e.srv.Mod.SetScriptFor("s1", reqs)
 
-	c := e.srv.Dial()
+	var c *e2e.Client
+	if useTLS == 1 {
+		c = e.srv.DialTLS("example.org")
+	} else {
+		c = e.srv.Dial()
+	}
 	defer c.Close()
 	c.Send([]byte("GET /a HTTP/1.1\r\nHost: example.org\r\nX-Verif-Id: r1\r\nX-Verif-Script: s1\r\n\r\n"))
 	status, body, loc, xfake, xmod, open := 0, []byte{}, "", 0, 0, 0
@@ -183,19 +189,27 @@ func gen(r *hv.Rng, i int, tier string) (string, hv.Val) {
 		h = 3
 	}
 	bst := []int{200, 200, 404, 500, 302}[r.Intn(5)]
-	in := hv.L{hv.I(h), hv.I(bst)}
-	chains := make([]hv.Val, 8)
+	useTLS := 0
+	if r.Chance(1, 4) {
+		useTLS = 1
+	}
+	in := hv.L{hv.I(h), hv.I(bst), hv.I(useTLS)}
+	chains := make([]hv.Val, 9)
 	for k := range chains {
 		chains[k] = hv.L{}
 	}
 	class := "mix"
 	switch r.Intn(4) {
 	case 0: // exactly one point has a non-continue verdict
-		p := r.Intn(8)
+		p := r.Intn(9)
+		if p == 1 {
+			useTLS = 1
+			in[2] = hv.I(1)
+		}
 		chains[p] = chain(r, h, 1)
 		class = fmt.Sprintf("single-p%d", points[p])
 	case 1: // two points
-		p, q := r.Intn(8), r.Intn(8)
+		p, q := r.Intn(9), r.Intn(9)
 		chains[p] = chain(r, h, 1)
 		chains[q] = chain(r, h, 1)
 		class = "double"
@@ -216,6 +230,9 @@ func gen(r *hv.Rng, i int, tier string) (string, hv.Val) {
 		for k := range chains {
 			chains[k] = hv.L{}
 		}
+	}
+	if useTLS == 1 {
+		class += "-tls"
 	}
 	in = append(in, chains...)
 	return class, in
